@@ -83,6 +83,10 @@ func deepTerm(fa *FuncAnalysis, t *Term, depth int) string {
 		if b == "_" {
 			return "_"
 		}
+		if len(t.Args) > 1 && t.Args[1].Op == "const" {
+			// a fixed position (`Entries[0]`) is not "the element the loop is at"
+			return "(elem" + t.Args[1].Name + " " + b + ")"
+		}
 		return "(elem " + b + ")"
 	case "deref":
 		return deepTerm(fa, t.Args[0], depth)
@@ -299,7 +303,8 @@ func (e *Engine) argTable() map[string]map[string][]string {
 		if len(fn.Blocks) == 0 || e.isGenerated(fn.Pos()) {
 			continue
 		}
-		sites := e.effectSites(fn)
+		sites := e.effectAndValueSites(fn)
+		delete(sites, "value:builtin.append")
 		if len(sites) == 0 || !sigUnchanged(topFunc(fn)) {
 			continue
 		}
@@ -317,7 +322,16 @@ func (e *Engine) argTable() map[string]map[string][]string {
 				}
 				var as []string
 				for _, a := range CallArgs(c.Common()) {
-					as = append(as, deepTerm(fa, fa.Term(a), 3))
+					if strings.HasPrefix(k, "value:") {
+						// operands of a value step: which FIELD of which parameter (or of whatever record) is added or
+						// subtracted - computed operands are `_` (their own steps are compared where they are made)
+						as = append(as, operandPath(fa.Term(a)))
+					} else {
+						as = append(as, deepTerm(fa, fa.Term(a), 3))
+					}
+				}
+				if rv := CallRecv(c.Common()); rv != nil && strings.HasPrefix(k, "value:") {
+					as = append([]string{operandPath(fa.Term(rv))}, as...)
 				}
 				set["("+strings.Join(as, " ")+")"] = true
 			}
@@ -582,4 +596,46 @@ func init() {
 				}
 			}})
 	}
+}
+
+// operandPath renders an operand of a value step by its access path only: parameters, constants and the field names
+// on the way; any computed part is `_`.  `validator.ValidatorShares` of a validator that was looked up is `(. _ ValidatorShares)`.
+func operandPath(t *Term) string {
+	if t == nil {
+		return "_"
+	}
+	if c := constName(t); (c == "0" || c == "1") && t.Op != "const" {
+		return c + "dec"
+	}
+	switch t.Op {
+	case "param":
+		return "$" + t.Name
+	case "const", "global":
+		return strings.ReplaceAll(t.Name, " ", "\\s")
+	case "field":
+		return "(. " + operandPath(t.Args[0]) + " " + t.Name + ")"
+	case "deref":
+		return operandPath(t.Args[0])
+	case "index":
+		return "(elem " + operandPath(t.Args[0]) + ")"
+	case "list":
+		var as []string
+		for _, a := range t.Args {
+			as = append(as, operandPath(a))
+		}
+		return strings.TrimSpace("(list "+strings.Join(as, " ")) + ")"
+	case "call", "ncall":
+		// constructors that only wrap their operands
+		switch t.Name {
+		case "sdk.NewDecCoins", "sdk.NewCoins", "sdk.NewDecCoinFromDec", "sdk.NewCoin", "sdk.DecCoins", "sdk.Coins":
+			var as []string
+			for _, a := range t.CallArgsT() {
+				as = append(as, operandPath(a))
+			}
+			return "(" + t.Name + " " + strings.Join(as, " ") + ")"
+		}
+	case "conv":
+		return operandPath(t.Args[0])
+	}
+	return "_"
 }
